@@ -83,3 +83,13 @@ package keeper
 //@ func Keeper.shouldSendRewardsToProvider
 //@ ensures [def] result <==> height - k.GetLastTransmissionBlockHeight(ctx).Height >= k.GetBlocksPerDistributionTransmission(ctx)
 //@ ensures [pure] S == old(S) && E == old(E) && X == old(X)
+
+//@ func Keeper.SendRewardsToProvider modular trusted
+//@ writes nothing
+
+//@ func Keeper.EndBlockRD
+//@ precall SendRewardsToProvider [fresh-cache] sameworld($SendRewardsToProvider.ctx, ctx)
+//@ ensures [split-first] $DistributeRewardsInternally.called
+//@ ensures [not-due] !$shouldSendRewardsToProvider.ret ==> !$SendRewardsToProvider.called && k.GetLastTransmissionBlockHeight(ctx) == old(k.GetLastTransmissionBlockHeight(ctx))
+//@ ensures [clock-reset] $shouldSendRewardsToProvider.ret ==> k.GetLastTransmissionBlockHeight(ctx).Height == height
+//@ ensures [failed-send-rolled-back] $SendRewardsToProvider.called && $SendRewardsToProvider.ret != nil ==> (forall key bytes :: key != types.LastDistributionTransmissionKey() ==> S[key] == old(S[key]))
